@@ -38,11 +38,13 @@ def correspond(ctx, scale):
     # ------------------------------------------------------------------ VectorQuantize: full Jacobians for small sizes
     n = (24 if not ctx.thorough else 160) * scale
     for ci in range(n):
+        # mixed-radix enumeration (no modular aliasing): rotation(2) x heads(3) x codebook mode(4) = 24 = one quick pass is the full product
         rot = ci % 2 == 0
-        heads, sep = [(1, False), (2, False), (2, True)][ci % 3]
-        cosine = ci % 5 == 3
-        learnable = (ci % 4 == 1) and not cosine
-        v = [0.0, 0.0, 0.5, 1.0][ci % 4] if learnable else 0.0
+        heads, sep = [(1, False), (2, False), (2, True)][(ci // 2) % 3]
+        lm = (ci // 6) % 4
+        learnable = lm > 0
+        cosine = (not learnable) and (ci // 24 + ci) % 3 == 1
+        v = [0.0, 0.0, 0.5, 1.0][lm]
         d = rng.choice([2, 3])
         K = rng.choice([3, 5])
         kw = dict(dim=d * heads, codebook_dim=d, heads=heads, separate_codebook_per_head=sep, codebook_size=K, rotation_trick=rot, use_cosine_sim=cosine,
